@@ -25,8 +25,28 @@ def check(ctx, src):
     m1 = hf.defn("macroexpand-1")
     m = hf.defn("macroexpand")
     ctx.need(m1 is not None and m is not None, "macroexpand / macroexpand-1 not found")
-    ctx.check(m1.items[-1].src() == "(_macroexpand model (or module (calling-module)) macros :once True)", "MX-FLAGS", f"{UT}|macroexpand-1|once", f"macroexpand-1 body is {m1.items[-1].src()}", UT, m1.line, witness="(hy.macroexpand-1 '(m 5)) expands to a fixpoint", detail=":once True")
-    ctx.check(m.items[-1].src() == "(_macroexpand model (or module (calling-module)) macros)", "MX-FLAGS", f"{UT}|macroexpand|no once", f"macroexpand body is {m.items[-1].src()}", UT, m.line, detail="no :once")
+    def once_of(defn):
+        """-> (call form or None, 'True' / 'False' / 'absent' / other source)"""
+        calls = [n for n in defn.walk() if n.kind == "expr" and n.head() == "_macroexpand"]
+        if len(calls) != 1:
+            return None, None
+        c = calls[0]
+        for k in range(1, len(c.items) - 1):
+            if c.items[k].is_kw("once"):
+                return c, c.items[k + 1].src()
+        pos = [x for x in c.items[1:] if x.kind != "kw"]
+        return c, ("absent" if len(pos) <= 3 or any(x.kind == "kw" for x in c.items[1:]) and len(pos) <= 4 else pos[3].src())
+
+    c1, o1 = once_of(m1)
+    c0, o0 = once_of(m)
+    ctx.decide("MX-FLAGS", f"{UT}|macroexpand-1|once", None if c1 is None else (True if o1 == "True" else (False if o1 in ("False", "absent") else None)),
+               f"macroexpand-1 calls `{c1.src() if c1 else None}`: it must ask for a single expansion step", UT, m1.line, witness="(hy.macroexpand-1 '(m 5)) expands to a fixpoint", detail=":once True")
+    ctx.decide("MX-FLAGS", f"{UT}|macroexpand|no once", None if c0 is None else (True if o0 in ("False", "absent") else (False if o0 == "True" else None)),
+               f"macroexpand calls `{c0.src() if c0 else None}`: it must expand to a fixpoint", UT, m.line, witness="(hy.macroexpand '(m 5)) stops after one step", detail="no :once")
+    for nm, d_, c_ in (("macroexpand-1", m1, c1), ("macroexpand", m, c0)):
+        if c_ is not None:
+            a = [x.src() for x in c_.items[1:4]]
+            ctx.check(a == ["model", "(or module (calling-module))", "macros"], "MX-FLAGS", f"{UT}|{nm}|arguments", f"{nm} hands {a} to _macroexpand", UT, d_.line, detail="model, module or the caller's, macros")
     # --- macros.macroexpand
     mc = src.py(MC)
     f = mc.func("macroexpand")
